@@ -264,7 +264,15 @@ def cmd_check(args):
     known = [k for k in load_known() if k["property"] == pid]
 
     # ---- Verus units
-    for un in conf.get("units", []):
+    # dependency units: units holding the contracts of the functions this property's code CALLS.  Every obligation in them counts
+    # for this property whatever its tags (modular verification notices a change in a callee only through the callee's own
+    # obligation, so the check has to run it: DESIGN 12 item 10l)
+    dep_units = list(conf.get("dep_units", []))
+    seen_dep = set()
+    seen_viol = set()
+    all_units = list(conf.get("units", [])) + [u for u in dep_units if u not in conf.get("units", [])]
+    for un in all_units:
+        dep = un in dep_units
         res = run_verus(un, tier, seed)
         if tier == "thorough" and "fatal" not in res:
             # stability: the same unit under two more solver seeds must give the same set of failing functions;
@@ -284,7 +292,7 @@ def cmd_check(args):
             # concrete counterexample is a violation.
             found_any = False
             for fl in (res.get("meta") or {}).get("failed", [])[:3]:
-                if pid not in {p_.split(":")[0] for p_ in fl["props"]}:
+                if pid not in {p_.split(":")[0] for p_ in fl["props"]} and not dep:
                     continue
                 from vxlib import replay as _rp
                 fin = _rp.run_probe(fl["fn_name"])
@@ -326,10 +334,12 @@ def cmd_check(args):
                 if d["item"] is not None:
                     it = meta["extracted"][d["item"]]
                     modes = {p_.split(":")[0] for p_ in it["props"]}
-                    if pid in modes and it not in hit_items:
+                    if (pid in modes or dep) and it not in hit_items:
                         hit_items.append(it)
             found_any = False
+            hit_items = [it for it in hit_items if ("fe", it["file"], it["sel"], it["fn_name"]) not in seen_viol]
             for it in hit_items[:3]:
+                seen_viol.add(("fe", it["file"], it["sel"], it["fn_name"]))
                 fin = _rp.run_probe(it["fn_name"])
                 bounded.append({"harness": f"probe::{it['fn_name']}", "bound": "deterministic probe grid of replay/src (see probe_*.rs)", "status": "failed" if fin else "no counterexample",
                                 "what": f"bounded stand-in: {it['file']} :: {it['sel']} uses a construct outside the verifier's reach ({hard[0]['message'][:120]})"})
@@ -356,7 +366,14 @@ def cmd_check(args):
         for it in meta["extracted"]:
             modes = {p.split(":")[0]: (p.split(":")[1] if ":" in p else "full") for p in it["props"]}
             if pid not in modes:
-                continue
+                if not dep:
+                    continue
+                # a dependency item counts once (a unit stacked on another repeats its items) and with the strongest mode
+                # any property gives it
+                if (it["file"], it["sel"], it["fn_name"]) in seen_dep:
+                    continue
+                modes[pid] = "full" if (not modes or "full" in modes.values()) else "safety"
+            seen_dep.add((it["file"], it["sel"], it["fn_name"]))
             safety_only = modes[pid] == "safety"
             qual = ""
             if it["sel"].startswith("impl "):
@@ -394,6 +411,11 @@ def cmd_check(args):
                     continue
                 for d in fails:
                     src_line = d["info"].get("src_line", 0)
+                    # a unit stacked on another repeats its items: one report per function body and failed clause
+                    vkey = (it["file"], it["sel"], it["fn_name"], d["message"], src_line)
+                    if vkey in seen_viol:
+                        continue
+                    seen_viol.add(vkey)
                     violations.append({
                         "obligation": name,
                         "kind": d["message"],
@@ -406,9 +428,15 @@ def cmd_check(args):
         # obligations from lemmas
         failed_lemma_lines = set(d["gen_line"] for d in lemma_fail)
         for lm in meta["lemmas"]:
-            if pid not in lm["props"]:
+            if pid not in lm["props"] and not dep:
                 continue
             fr = func_result(res, lm["name"])
+            if pid not in lm["props"]:
+                # dependency unit: proved lemmas count once; `external_body` axioms have no verification result (they are
+                # assumptions, listed in the trusted base) and are not obligations
+                if not fr or ("lemma", lm["name"]) in seen_dep:
+                    continue
+                seen_dep.add(("lemma", lm["name"]))
             ok = bool(fr) and all(v["success"] for _, v in fr)
             obligations.append({"name": f"{un}::{lm['name']} (lemma over contracts)", "backend": "verus-z3", "tier": "V", "status": "discharged" if ok else "failed",
                                 "ms": sum(v["ms"] for _, v in fr), "source": f"{lm['origin']}:{lm['line']}"})
@@ -553,7 +581,7 @@ def cmd_check(args):
         "seed": seed,
         "level": level,
         "coverage": coverage,
-        "assumptions": conf.get("assumptions", []) + config.COMMON_ASSUMPTIONS,
+        "assumptions": conf.get("assumptions", []) + config.COMMON_ASSUMPTIONS + ([config.DEP_UNITS_NOTE + ": " + ", ".join(conf["dep_units"])] if conf.get("dep_units") else []),
         "wall_s": round(time.time() - t0, 2),
         "violations": len(vio_lines),
     }
